@@ -146,7 +146,7 @@ func (l *c02Ledger) probe() *hermes.VerifProbe {
 		AfterEvatra: func(g *hermes.GlobalVarsMain, zeit int, w *hermes.WaterSharedVars) {
 			l.eC = sumN(g.C1[:], g.N)
 			l.sC, l.a0, l.o0, l.d0 = l.eC, g.AUFNASUM, g.OUTSUM, g.DRAINLOSS
-			l.ums0, l.mina0, l.minf0, l.n2o0 = g.UMS, sumN(g.MINAOS[:], 4), sumN(g.MINFOS[:], 4), g.N2onitsum
+			l.ums0, l.mina0, l.minf0, l.n2o0 = g.UMS, sumN(g.MINAOS[:], len(g.MINAOS)), sumN(g.MINFOS[:], len(g.MINFOS)), g.N2onitsum
 			l.auf0, l.out0, l.dl0, l.den0 = g.AUFNASUM, g.OUTSUM, g.DRAINLOSS, g.CUMDENIT
 			if l.exempt {
 				return
@@ -229,7 +229,7 @@ func (l *c02Ledger) probe() *hermes.VerifProbe {
 				cls += " N<9"
 			}
 			// (a) the source term handed to the transport routine is what the pools and counters say
-			src := (g.UMS - l.ums0) + (sumN(g.MINAOS[:], 4) - l.mina0) + (sumN(g.MINFOS[:], 4) - l.minf0) - (g.N2onitsum - l.n2o0)
+			src := (g.UMS - l.ums0) + (sumN(g.MINAOS[:], len(g.MINAOS)) - l.mina0) + (sumN(g.MINFOS[:], len(g.MINFOS)) - l.minf0) - (g.N2onitsum - l.n2o0)
 			dn := sumN(g.DN[:], N)
 			if d := dn - src; math.Abs(d) > relTol(dn, src, g.UMS, l.mina0, l.minf0) {
 				l.c.Violate("source-term"+cls, fmt.Sprintf("%s day %d: source term of the transport %.10g kg N/ha, but dissolved fertiliser + net mineralisation - nitrification N2O = %.10g", l.label, zeit, dn, src), nil)
